@@ -43,6 +43,9 @@ var nameUniverse = []string{
 	"z.test", "test", "a.co.uk", "b.a.co.uk", "c.b.a.co.uk", "d.c.b.a.co.uk", "co.uk", "uk",
 	"blogspot.com", "x.blogspot.com", "y.x.blogspot.com", "com", "example.com", "www.example.com",
 	"deep.www.example.com", "very.deep.www.example.com", "A.Test", "single",
+	// Names whose SHA-256 sums begin with the same two octets (they share a
+	// bucket of the hash-prefix index): a triple and a pair.
+	"h162.test", "h298.test", "h363.test", "h74.test", "h2632.test",
 }
 
 // listModel is the independent model of one list.
